@@ -334,6 +334,7 @@ SWEEP_ALPHABET = [
     "uc_atoms", "slab", "conn", "uc_mols", "sym_mols", "air", "asur", "menv",
     "density", "as_P1", "cif", "poscar", "sl_res", "res",
     "toH", "toR", "normH", "deepcopy", "pickle",
+    "toX", "reload", "labelled_uc_mols", "cif_data",
 ]  # fmt: skip
 SWEEP_SOURCES = [
     {
